@@ -2,7 +2,10 @@
 
 usage: python -m vlib.worker ID tier seed shard nshards n_examples out tmpdir
 """
-import sys, os, json, time, traceback, importlib
+import sys, os, json, time, traceback, importlib, unittest
+
+
+T_PROCESS_START = time.time()
 
 
 def load_check(prop_id):
@@ -45,7 +48,7 @@ def main(argv):
         if hasattr(mod, 'setup'):
             ctx.state = mod.setup(ctx)
         strat = mod.strategy(ctx)
-        t_start = time.time()
+        t_start = T_PROCESS_START
 
         @hypothesis.seed(seed * 1000 + shard)
         @settings(max_examples=n_examples, database=None, deadline=None,
@@ -61,8 +64,10 @@ def main(argv):
                 if now - st['first_fail_t'] > shrink_cap:
                     return           # stop shrinking: keep smallest seen so far
             elif time_cap is not None and now - t_start > time_cap:
-                st['timed_out'] += 1
-                return
+                # stop the whole shard now (Hypothesis re-raises skip exceptions at once):
+                # a wall-clock cap means fewer cases, never a failure
+                st['timed_out'] = 1
+                raise unittest.SkipTest('time cap')
             if journal:
                 with open(journal, 'w') as f:
                     f.write(jdump(case))
@@ -97,6 +102,8 @@ def main(argv):
 
         try:
             test()
+        except unittest.SkipTest:
+            pass
         except Violation:
             pass
         except HarnessError:
@@ -108,7 +115,7 @@ def main(argv):
                 raise
         if st['fail'] is not None:
             result['violation'] = st['fail']
-        ctx.extra['time_capped_cases'] = st['timed_out']
+        ctx.extra['shards_time_capped'] = st['timed_out']
     except BaseException as e:
         if isinstance(e, KeyboardInterrupt):
             raise
